@@ -76,6 +76,22 @@ def evaluate_matrix(at, k, cm, fit, ignore_four, lab=None, want_obs=False):
             cols_ii.append(None)
         else:
             cols_ii.append(path[0][0])
+    extra = sorted(set(x for x in cols_ii if x is not None) - set(ref["cols"]))
+    if extra and not bad_cols and len(set(cols_ii)) == len(cols_ii) and set(ref["cols"]) <= set(cols_ii):
+        # F16 (known finding of C08, same root): a TWO-POINT interface on the tissue border that joins a junction of >= 3 cells and
+        # >= 4 interfaces to a junction of 2 cells passes the library's vertex-membership test for 'internal'
+        jc, jd = T.junction_cells(at), T.junction_degree(at)
+        ks = T.sample_counts(at, k)
+
+        def f16(ii):
+            it = at["I"][ii]
+            if ks[ii] != 0 or (it["L"] is None) == (it["R"] is None):
+                return False
+            big = [j for j in (it["a"], it["b"]) if len(jc[j]) >= 3 and jd[j] >= 4]
+            return bool(big) and all(len(jc[j]) >= 2 for j in (it["a"], it["b"]))
+        if all(f16(ii) for ii in extra):
+            known.append({"id": "F16", "interfaces": extra})
+            return viol, known, tags + ["F16_no_verdict"], None
     if bad_cols or sorted(x for x in cols_ii if x is not None) != sorted(ref["cols"]) or len(set(cols_ii)) != len(cols_ii):
         viol.append({"what": "unknowns are not exactly the internal interfaces, each once",
                      "detail": {"got": cols_ii[:30], "exp": ref["cols"][:30]}})
@@ -386,6 +402,8 @@ def build(tier, seed):
     if tier == "quick":
         return [Geometry(["v5x5", "v4x4p%d" % (seed + 1)], 2, 12, seed),
                 SubTissues("v5x4", [0, 1, 2, 5], [["id"], ["m", 0.05, 0.02]]),
+                SubTissues("fan5", [2, ["mod3", 0, 3, 1]], [["id"], ["m", 0.05, 0.02]]),       # many-fold junctions ON the border
+                SubTissues("square3x3", [1], [["m", 0.05, 0.02]]),
                 Lattices(["square4x4", "brick4x4", "hex3x3", "fan5", "fan6", "fan4", "lens"], 12)]
     return [Geometry(["v5x5"], 3, 24, seed),
             Geometry(["v6x5", "v6x6", "v5x4p%d" % (seed + 1)], 2, 48, seed),
